@@ -985,7 +985,17 @@ fn progress_preds(a: &Analysis, out: &RunOut, v: &mut Vec<Viol>, f: &mut Feat) {
         });
     }
     if let rt::End::Abandoned(w) = &out.outcome.end {
-        if out.outcome.livelock.is_none() {
+        if w.contains("uninterruptible") {
+            let cur = a.ops.iter().enumerate().rev().find(|(_, o)| o.ret == 0 && o.k.is_try());
+            v.push(Viol {
+                pred: "realtime_unbounded",
+                op: cur.map(|(i, _)| i as u32),
+                detail: format!(
+                    "{} did not return while every other thread was suspended",
+                    cur.map(|(_, o)| o.k.name()).unwrap_or("an operation run alone")
+                ),
+            });
+        } else if out.outcome.livelock.is_none() {
             v.push(Viol {
                 pred: "not_released",
                 op: None,
